@@ -1,1 +1,342 @@
-/- C03 — theorems (placeholder until the property is built). -/
+/-
+  C03 — Winner-takes-all picks each pixel's best cost inside its disparity interval.
+
+  Theorems about the executable model `Model/Wta.lean` (+ `Model/Blocks.lean`), for cost volumes of any
+  shape, any NaN pattern, ties, min- and max-type measures, any `invalid_disparity` (NaN included) and
+  any split of the image into processing blocks; the block literals of the source are instantiated
+  from `Generated/Blocks.lean` (regenerated from disparity.py on every run).
+-/
+import PandoraModel.Model.Wta
+import PandoraModel.Lemmas.Blocks
+import PandoraModel.Generated.Blocks
+import Mathlib.Algebra.Order.Field.Rat
+import Mathlib.Tactic.Linarith
+
+namespace Pandora.C03
+open Pandora Pandora.Wta
+
+/-! ### 1. `np.argmin` / `np.argmax` as first occurrence of the extremum -/
+
+/-- strict weak order (what `<` on floats without NaN is) -/
+structure StrictWeak {α : Type} (lt : α → α → Bool) : Prop where
+  irrefl : ∀ a, lt a a = false
+  trans : ∀ a b c, lt a b = true → lt b c = true → lt a c = true
+  negTrans : ∀ a b c, lt a b = false → lt b c = false → lt a c = false
+
+theorem StrictWeak.asymm {α : Type} {lt : α → α → Bool} (h : StrictWeak lt) {a b : α}
+    (hab : lt a b = true) : lt b a = false := by
+  cases hba : lt b a with
+  | false => rfl
+  | true => have := h.trans a b a hab hba; rw [h.irrefl] at this; exact absurd this (by decide)
+
+theorem extLt_strictWeak : StrictWeak Ext.lt where
+  irrefl a := by cases a <;> simp [Ext.lt]
+  trans a b c := by
+    cases a <;> cases b <;> cases c <;> simp [Ext.lt]
+    exact fun h1 h2 => lt_trans h1 h2
+  negTrans a b c := by
+    cases a <;> cases b <;> cases c <;> simp [Ext.lt]
+    exact fun h1 h2 => le_trans h2 h1
+
+theorem gtExt_strictWeak : StrictWeak gtExt where
+  irrefl a := extLt_strictWeak.irrefl a
+  trans a b c h1 h2 := extLt_strictWeak.trans c b a h2 h1
+  negTrans a b c h1 h2 := extLt_strictWeak.negTrans c b a h2 h1
+
+/-- the scan returns (index, element) of the first least element -/
+theorem argFirstAux_spec {α : Type} {lt : α → α → Bool} (h : StrictWeak lt) :
+    ∀ (xs : List α) (x : α),
+      (x :: xs)[(argFirstAux lt x xs).1]? = some (argFirstAux lt x xs).2
+      ∧ (∀ y ∈ x :: xs, lt y (argFirstAux lt x xs).2 = false)
+      ∧ (∀ j y, j < (argFirstAux lt x xs).1 → (x :: xs)[j]? = some y → lt (argFirstAux lt x xs).2 y = true)
+  | [], x => by
+    refine ⟨by simp [argFirstAux], ?_, ?_⟩
+    · intro y hy; simp at hy; subst hy; simpa [argFirstAux] using h.irrefl y
+    · intro j y hj; simp [argFirstAux] at hj
+  | y :: ys, x => by
+    obtain ⟨ih1, ih2, ih3⟩ := argFirstAux_spec h ys y
+    by_cases hlt : lt (argFirstAux lt y ys).2 x = true
+    · have e : argFirstAux lt x (y :: ys) = ((argFirstAux lt y ys).1 + 1, (argFirstAux lt y ys).2) := by
+        simp [argFirstAux, hlt]
+      rw [e]
+      refine ⟨by simpa using ih1, ?_, ?_⟩
+      · intro z hz
+        rcases List.mem_cons.1 hz with rfl | hz
+        · exact h.asymm hlt
+        · exact ih2 z hz
+      · intro j z hj hz
+        cases j with
+        | zero => simp at hz; subst hz; exact hlt
+        | succ j => exact ih3 j z (by simpa using hj) (by simpa using hz)
+    · have hlt' : lt (argFirstAux lt y ys).2 x = false := by simpa using hlt
+      have e : argFirstAux lt x (y :: ys) = (0, x) := by simp [argFirstAux, hlt']
+      rw [e]
+      refine ⟨by simp, ?_, ?_⟩
+      · intro z hz
+        rcases List.mem_cons.1 hz with rfl | hz
+        · exact h.irrefl _
+        · exact h.negTrans z _ _ (ih2 z hz) hlt'
+      · intro j z hj; simp at hj
+
+/-- index form: in range, nothing is strictly better, everything before is strictly worse -/
+theorem argFirst_spec {α : Type} {lt : α → α → Bool} (h : StrictWeak lt) (xs : List α) (hne : xs ≠ []) :
+    ∃ m, xs[argFirst lt xs]? = some m
+      ∧ (∀ (j : Nat) y, xs[j]? = some y → lt y m = false)
+      ∧ (∀ (j : Nat) y, j < argFirst lt xs → xs[j]? = some y → lt m y = true) := by
+  cases xs with
+  | nil => exact absurd rfl hne
+  | cons x xs =>
+    obtain ⟨h1, h2, h3⟩ := argFirstAux_spec h xs x
+    refine ⟨(argFirstAux lt x xs).2, h1, ?_, h3⟩
+    intro j y hy
+    exact h2 y (List.mem_of_getElem? hy)
+
+/-! ### 2. One pixel -/
+
+def sub (isMax : Bool) : Val → Ext := if isMax then substMax else substMin
+def ord (isMax : Bool) : Ext → Ext → Bool := if isMax then gtExt else Ext.lt
+
+theorem winnerIdx_eq (isMax : Bool) (costs : List Val) :
+    winnerIdx isMax costs = argFirst (ord isMax) (costs.map (sub isMax)) := by
+  cases isMax <;> rfl
+
+theorem ord_strictWeak (isMax : Bool) : StrictWeak (ord isMax) := by
+  cases isMax
+  · exact extLt_strictWeak
+  · exact gtExt_strictWeak
+
+/-- a computable cost beats the substituted NaN -/
+theorem ord_num_nan (isMax : Bool) (q : Rat) : ord isMax (sub isMax (.num q)) (sub isMax .nan) = true := by
+  cases isMax <;> rfl
+
+/-- nothing is worse than the substituted NaN -/
+theorem ord_nan_any (isMax : Bool) (v : Val) : ord isMax (sub isMax .nan) (sub isMax v) = false := by
+  cases isMax <;> cases v <;> rfl
+
+theorem ord_num_num (isMax : Bool) (a b : Rat) :
+    ord isMax (sub isMax (.num a)) (sub isMax (.num b)) = false ↔ asGood isMax b a = true := by
+  cases isMax <;> simp [ord, sub, gtExt, Ext.lt, substMin, substMax, asGood]
+
+theorem costAt_eq_getElem? (costs : List Val) (k : Nat) (hk : k < costs.length) :
+    costs[k]? = some (costAt costs k) := by
+  simp [costAt, List.getD, List.getElem?_eq_getElem hk]
+
+theorem hasCost_iff (costs : List Val) :
+    hasCost costs = true ↔ ∃ k q, k < costs.length ∧ costAt costs k = .num q := by
+  constructor
+  · intro h
+    obtain ⟨v, hv, hnum⟩ := List.any_eq_true.1 h
+    obtain ⟨k, hk, rfl⟩ := List.mem_iff_getElem.1 hv
+    cases e : costs[k] with
+    | nan => rw [e] at hnum; simp [Val.isNum, Val.isNan] at hnum
+    | num q => exact ⟨k, q, hk, by simp [costAt, List.getD, List.getElem?_eq_getElem hk, e]⟩
+  · rintro ⟨k, q, hk, e⟩
+    refine List.any_eq_true.2 ⟨costs[k], List.getElem_mem hk, ?_⟩
+    have : costs[k] = .num q := by
+      simpa [costAt, List.getD, List.getElem?_eq_getElem hk] using e
+    rw [this]; rfl
+
+theorem allNan_eq_not_hasCost (costs : List Val) : allNan costs = !hasCost costs := by
+  induction costs with
+  | nil => rfl
+  | cons v vs ih =>
+    simp only [allNan, hasCost, List.all_cons, List.any_cons] at ih ⊢
+    rw [ih]; cases v <;> simp [Val.isNum, Val.isNan]
+
+theorem strictlyIncreasing_getD : ∀ (ds : List Rat), strictlyIncreasing ds = true →
+    ∀ i j, i ≤ j → j < ds.length → dispAt ds i ≤ dispAt ds j
+  | [], _, _, _, _, hj => by simp at hj
+  | [a], _, i, j, hij, hj => by
+    have : j = 0 := by simpa using hj
+    have : i = 0 := by omega
+    subst_vars; exact le_refl _
+  | a :: b :: rest, h, i, j, hij, hj => by
+    simp only [strictlyIncreasing, Bool.and_eq_true, decide_eq_true_eq] at h
+    have ih := strictlyIncreasing_getD (b :: rest) h.2
+    cases i with
+    | zero =>
+      cases j with
+      | zero => exact le_refl _
+      | succ j =>
+        have h0 : dispAt (a :: b :: rest) 0 = a := rfl
+        have hj' : dispAt (a :: b :: rest) (j + 1) = dispAt (b :: rest) j := rfl
+        have hb : dispAt (b :: rest) 0 = b := rfl
+        have := ih 0 j (Nat.zero_le _) (by simpa using hj)
+        rw [h0, hj']; rw [hb] at this; exact le_trans (le_of_lt h.1) this
+    | succ i =>
+      cases j with
+      | zero => omega
+      | succ j =>
+        exact ih i j (by omega) (by simpa using hj)
+
+/-- everything the scan guarantees about the winner of a pixel with at least one computable cost -/
+theorem winner_facts (isMax : Bool) (costs : List Val) (hc : hasCost costs = true) :
+    winnerIdx isMax costs < costs.length
+    ∧ isBestIdx isMax costs (winnerIdx isMax costs) = true
+    ∧ (∀ j, j < costs.length → isBestIdx isMax costs j = true → winnerIdx isMax costs ≤ j) := by
+  obtain ⟨k0, q0, hk0, e0⟩ := (hasCost_iff costs).1 hc
+  have hne : costs.map (sub isMax) ≠ [] := by
+    intro h; rw [List.map_eq_nil_iff] at h; subst h; simp at hk0
+  obtain ⟨m, hm, hbest, hfirst⟩ := argFirst_spec (ord_strictWeak isMax) _ hne
+  rw [← winnerIdx_eq] at hm hfirst
+  set i := winnerIdx isMax costs with hi
+  have hilt : i < costs.length := by
+    have := (List.getElem?_eq_some_iff.1 hm).1
+    simpa using this
+  have hmi : m = sub isMax (costAt costs i) := by
+    have := costAt_eq_getElem? costs i hilt
+    rw [List.getElem?_map, this] at hm
+    simpa using hm.symm
+  have at_j : ∀ j, j < costs.length → (costs.map (sub isMax))[j]? = some (sub isMax (costAt costs j)) := by
+    intro j hj; rw [List.getElem?_map, costAt_eq_getElem? costs j hj]; rfl
+  -- the winner's cost is computable
+  obtain ⟨c, hcI⟩ : ∃ c, costAt costs i = .num c := by
+    cases e : costAt costs i with
+    | num c => exact ⟨c, rfl⟩
+    | nan =>
+      have := hbest k0 _ (at_j k0 hk0)
+      rw [hmi, e, e0, ord_num_nan] at this
+      exact absurd this (by decide)
+  have best_i : isBestIdx isMax costs i = true := by
+    unfold isBestIdx; rw [hcI]
+    refine List.all_eq_true.2 ?_
+    intro j hj
+    have hj : j < costs.length := by simpa [idxs] using hj
+    cases e : costAt costs j with
+    | nan => rfl
+    | num c' =>
+      have := hbest j _ (at_j j hj)
+      rw [hmi, hcI, e] at this
+      exact (ord_num_num isMax c' c).1 this
+  refine ⟨hilt, best_i, ?_⟩
+  intro j hj hbj
+  by_contra hlt
+  have hlt : j < i := by omega
+  have h1 := hfirst j _ hlt (at_j j hj)
+  rw [hmi, hcI] at h1
+  -- j is best too: its cost is as good as the winner's
+  unfold isBestIdx at hbj
+  cases e : costAt costs j with
+  | nan => rw [e] at hbj; simp at hbj
+  | num c' =>
+    rw [e] at hbj h1
+    have := List.all_eq_true.1 hbj i (by simpa [idxs] using hilt)
+    rw [hcI] at this
+    have h2 := (ord_num_num isMax c c').2 this
+    rw [h2] at h1; exact absurd h1 (by decide)
+
+/-- **Per-pixel theorem.**  For well-formed pixel data the value written by the model satisfies every
+    clause of the specification: sampled disparity, best cost, lowest disparity among ties, inside the
+    pixel's interval; `invalid_disparity` (NaN included) when no cost is computable. -/
+theorem wtaPixel_spec (isMax : Bool) (disps : List Rat) (lo hi : Rat) (costs : List Val) (invalid : Val)
+    (wf : wfPixel disps lo hi costs = true) :
+    specPixel isMax disps lo hi costs invalid (wtaPixel isMax disps costs invalid) = true := by
+  simp only [wfPixel, Bool.and_eq_true, beq_iff_eq] at wf
+  obtain ⟨⟨hlen, hinc⟩, hint⟩ := wf
+  cases hc : hasCost costs with
+  | false =>
+    have : wtaPixel isMax disps costs invalid = invalid := by
+      simp [wtaPixel, allNan_eq_not_hasCost, hc]
+    simp [specPixel, clauseIsSample, clauseIsBest, clauseTieLowest, clauseInInterval, clauseAllNan, hc, this]
+  | true =>
+    obtain ⟨hi1, hi2, hi3⟩ := winner_facts isMax costs hc
+    have hout : wtaPixel isMax disps costs invalid = .num (dispAt disps (winnerIdx isMax costs)) := by
+      simp [wtaPixel, allNan_eq_not_hasCost, hc]
+    rw [hout]
+    have hmem : winnerIdx isMax costs ∈ idxs costs := by simpa [idxs] using hi1
+    simp only [specPixel, clauseIsSample, clauseIsBest, clauseTieLowest, clauseInInterval, clauseAllNan,
+      hc, Bool.not_true, Bool.false_or, Bool.true_or, Bool.and_true, Bool.and_eq_true]
+    refine ⟨⟨⟨?_, ?_⟩, ?_⟩, ?_⟩
+    · exact List.any_eq_true.2 ⟨_, hmem, by simp⟩
+    · exact List.any_eq_true.2 ⟨_, hmem, by simp [hi2]⟩
+    · refine List.all_eq_true.2 ?_
+      intro j hj
+      have hj' : j < costs.length := by simpa [idxs] using hj
+      cases hb : isBestIdx isMax costs j with
+      | false => rfl
+      | true =>
+        have := strictlyIncreasing_getD disps hinc _ j (hi3 j hj' hb) (by omega)
+        simpa using this
+    · have := List.all_eq_true.1 hint _ hmem
+      have hnum : (costAt costs (winnerIdx isMax costs)).isNan = false := by
+        unfold isBestIdx at hi2
+        cases e : costAt costs (winnerIdx isMax costs) with
+        | nan => rw [e] at hi2; simp at hi2
+        | num c => rfl
+      rw [hnum] at this
+      simpa using this
+
+/-! ### 3. The whole map: block independence and the specification -/
+
+/-- **Block independence** (`argmin_split` / `argmax_split`): inside the image the blocked loops give
+    every pixel the value of its own cost row — for every split `np.arange(start, n, step)` (any start,
+    any step, any stop), provided the offsets start at 0 as in the source. -/
+theorem argSplit_eq_direct (s : Blocks.Split) (h0 : s.beginY = 0 ∧ s.beginX = 0) (x : Input) (r c : Nat)
+    (hr : r < x.rows) (hc : c < x.cols) :
+    argSplit s x r c = dispAt x.disps (winnerIdx x.isMax (x.cv r c)) := by
+  unfold argSplit
+  rw [Blocks.blocked_eq_direct]
+  simp [Blocks.direct, Blocks.Split.plan, hr, hc, h0.1, h0.2]
+
+theorem toDisp_eq_pixel (s : Blocks.Split) (h0 : s.beginY = 0 ∧ s.beginX = 0) (x : Input) (r c : Nat)
+    (hr : r < x.rows) (hc : c < x.cols) :
+    toDisp s x r c = wtaPixel x.isMax x.disps (x.cv r c) x.invalid := by
+  unfold toDisp wtaPixel
+  rw [argSplit_eq_direct s h0 x r c hr hc]
+
+/-- the result does not depend on how the image is split into processing blocks -/
+theorem toDisp_block_independent (s s' : Blocks.Split) (hy : s.beginY = s'.beginY) (hx : s.beginX = s'.beginX)
+    (x : Input) : toDisp s x = toDisp s' x := by
+  funext r c
+  unfold toDisp argSplit
+  rw [Blocks.blocked_eq_direct, Blocks.blocked_eq_direct]
+  simp [Blocks.direct, Blocks.Split.plan, hy, hx]
+
+/-- **C03, main theorem.**  Every pixel of the disparity map computed by the model satisfies the
+    per-pixel specification, whatever the image size and the block split. -/
+theorem toDisp_spec (s : Blocks.Split) (h0 : s.beginY = 0 ∧ s.beginX = 0) (x : Input) (lo hi : Nat → Nat → Rat)
+    (wf : ∀ r c, r < x.rows → c < x.cols → wfPixel x.disps (lo r c) (hi r c) (x.cv r c) = true) :
+    ∀ r c, r < x.rows → c < x.cols →
+      specPixel x.isMax x.disps (lo r c) (hi r c) (x.cv r c) x.invalid (toDisp s x r c) = true := by
+  intro r c hr hc
+  rw [toDisp_eq_pixel s h0 x r c hr hc]
+  exact wtaPixel_spec _ _ _ _ _ _ (wf r c hr hc)
+
+/-- the main theorem for the loop literals found in disparity.py on this run (`argmin_split` and
+    `argmax_split`): fails to build if an initial offset is no longer 0 -/
+theorem source_blocks_spec (x : Input) (lo hi : Nat → Nat → Rat)
+    (wf : ∀ r c, r < x.rows → c < x.cols → wfPixel x.disps (lo r c) (hi r c) (x.cv r c) = true) :
+    ∀ r c, r < x.rows → c < x.cols →
+      specPixel x.isMax x.disps (lo r c) (hi r c) (x.cv r c) x.invalid
+        (toDisp (if x.isMax then Generated.Blocks.wtaArgmax else Generated.Blocks.wtaArgmin) x r c) = true := by
+  have h1 : Generated.Blocks.wtaArgmax.beginY = 0 ∧ Generated.Blocks.wtaArgmax.beginX = 0 := by decide
+  have h2 : Generated.Blocks.wtaArgmin.beginY = 0 ∧ Generated.Blocks.wtaArgmin.beginX = 0 := by decide
+  cases hm : x.isMax
+  · simpa [hm] using toDisp_spec _ h2 x lo hi wf
+  · simpa [hm] using toDisp_spec _ h1 x lo hi wf
+
+/-- `cv_unchanged`: substitution followed by the restore from `indices_nan` gives back every cell -/
+theorem cvAfter_eq (x : Input) : cvAfter x = x.cv := by
+  funext r c
+  unfold cvAfter
+  conv => rhs; rw [← List.map_id (x.cv r c)]
+  apply List.map_congr_left
+  intro v _
+  cases v <;> cases x.isMax <;> simp [restoreCell, substMin, substMax, Val.isNan]
+
+/-! ### 4. Non-vacuity -/
+
+/-- a pixel with a tie, a NaN and an interval narrower than the sampled range -/
+example : wfPixel [-2, -1, 0, 1, 2] (-1) 1 [.nan, .num 3, .num 1, .num 1, .nan] = true := by decide
+example : wtaPixel false [-2, -1, 0, 1, 2] [.nan, .num 3, .num 1, .num 1, .nan] (.num (-9999)) = .num 0 := by
+  decide
+example : wtaPixel true [-2, -1, 0, 1, 2] [.nan, .num 3, .num 1, .num 1, .nan] (.num (-9999)) = .num (-1) := by
+  decide
+example : wtaPixel false [-2, -1] [.nan, .nan] .nan = .nan := by decide
+/-- the specification is not trivially true: it rejects the higher disparity of the tie -/
+example : specPixel false [-2, -1, 0, 1, 2] (-1) 1 [.nan, .num 3, .num 1, .num 1, .nan] (.num (-9999)) (.num 1)
+    = false := by decide
+example : specPixel false [-2, -1, 0, 1, 2] (-1) 1 [.nan, .num 3, .num 1, .num 1, .nan] (.num (-9999)) (.num 0)
+    = true := by decide
+
+end Pandora.C03
